@@ -201,6 +201,22 @@ def each_guarded(name, pattern, guards, files=None, window=12, min_hits=1):
             fn = enclosing_fn(fns, mo.start())
             if guarded_at(lines_m, ln):
                 continue
+            # the guard may have moved into a helper called just before: look in the enclosing function with its
+            # helpers spliced in
+            encl = None
+            for (nm, st_, bo_, bc_) in fns:
+                if bo_ <= mo.start() <= bc_ and (encl is None or bo_ > encl[1]):
+                    encl = (nm, bo_, bc_)
+            if encl:
+                sp = mask(body_with_helpers(text, dict(body_open=encl[1], body_close=encl[2]), encl[0], 1))
+                ok_here = False
+                for mo2 in re.finditer(pattern, sp):
+                    pre = sp[:mo2.start()].split('\n')[-(window * 3):]
+                    if any(re.search(g, '\n'.join(pre)) for g in guards):
+                        ok_here = True
+                # every occurrence in the spliced text must be guarded for this one to count
+                if ok_here and all(any(re.search(g, '\n'.join(sp[:m3.start()].split('\n')[-(window * 3):])) for g in guards) for m3 in re.finditer(pattern, sp)):
+                    continue
             # one level up: the enclosing helper's call sites
             sites = []
             if fn and fn not in _GENERIC:
@@ -240,7 +256,8 @@ def body_is(name, file, fn, pattern, impl=None):
 
 
 def occurs(name, file, fn, pattern, n, impl=None):
-    """Obligation: inside fn, `pattern` occurs exactly n times."""
+    """Obligation: inside fn, `pattern` occurs exactly n times (counted again with the same-file helpers spliced in at
+    their call sites if the plain count differs: a statement that was moved into a helper called from each place)."""
     text = read_repo(file)
     try:
         loc = rsrc.find_fn(text, fn, impl)
@@ -248,5 +265,11 @@ def occurs(name, file, fn, pattern, n, impl=None):
         return dict(name=name, kind='frame/occurs', ok=None, hits=0, detail=['anchor lost: %s' % e], sample=[])
     body = text[loc['body_open']:loc['body_close'] + 1]
     k = len(re.findall(pattern, mask(body)))
+    ks = [k]
+    for depth in (1, 2):
+        if k == n:
+            break
+        k = len(re.findall(pattern, mask(body_with_helpers(text, loc, fn, depth))))
+        ks.append(k)
     return dict(name=name, kind='frame/occurs', ok=(k == n), hits=k,
-                detail=[] if k == n else ['%s::%s: `%s` occurs %d times, expected %d' % (file, fn, pattern, k, n)], sample=[])
+                detail=[] if k == n else ['%s::%s: `%s` occurs %s times (plain / with helpers), expected %d' % (file, fn, pattern, ks, n)], sample=[])
